@@ -54,6 +54,8 @@ func main() {
 		for _, s := range scenarios {
 			fmt.Println(s.Prop, s.Name, s.Quick, s.Thorough)
 		}
+	case "conform":
+		os.Exit(conformMain(os.Args[2:]))
 	case "prof":
 		// mc prof <scenario> <seconds>: CPU profile of repeated root executions + level-1 children
 		sc := findScenario(os.Args[2])
@@ -182,6 +184,8 @@ func checkMain(args []string) int {
 	budget := fs.Int("budget", 0, "total wall seconds for exploration (default 60 quick / 600 thorough)")
 	instr := fs.String("instr-stats", "", "JSON file with instrumentation counts")
 	selfc := fs.String("selfcheck", "", "JSON file with the result of the instrumentation self-check")
+	realf := fs.String("real", "", "JSON file with the result of the real-network runs (mcreal)")
+	conff := fs.String("conform", "", "JSON file with the result of the environment conformance pass")
 	fs.Parse(args)
 	t0 := time.Now()
 	seed := 0
@@ -418,6 +422,39 @@ func checkMain(args []string) int {
 			json.Unmarshal(b, &selfCheck)
 		}
 	}
+	var realRes, confRes map[string]interface{}
+	if *realf != "" {
+		if b, err := os.ReadFile(*realf); err == nil {
+			json.Unmarshal(b, &realRes)
+		}
+	}
+	if *conff != "" {
+		if b, err := os.ReadFile(*conff); err == nil {
+			json.Unmarshal(b, &confRes)
+		}
+	}
+	if realRes != nil {
+		if failed, _ := realRes["failed"].(float64); failed > 0 {
+			// configurations that failed three attempts in fresh subprocesses
+			var bad []interface{}
+			if rs, ok := realRes["results"].([]interface{}); ok {
+				for _, r := range rs {
+					if m, ok := r.(map[string]interface{}); ok && m["ok"] != true {
+						bad = append(bad, m)
+					}
+				}
+			}
+			b, _ := json.MarshalIndent(map[string]interface{}{"property": *prop, "kind": "real-network configurations whose transcript differs", "expected_transcript": realRes["expected_transcript"], "failing": bad, "rerun": "build /verif/real and run: mcreal one -cfg '<cfg>' -port 24000 -dir /var/tmp"}, "", " ")
+			os.MkdirAll(*replays, 0755)
+			path := filepath.Join(*replays, *prop+"-real-networks.json")
+			os.WriteFile(path, b, 0644)
+			fmt.Printf("violation key=C12/real-network-transcript: %d real-network configurations differ from the expected transcript\n", len(bad))
+			fmt.Printf("VIOLATION property=%s replay=%s\n", *prop, path)
+			newViol = append(newViol, "C12/real-network-transcript")
+			exit = 1
+		}
+		delete(realRes, "results")
+	}
 	if len(samples) == 0 {
 		samples = append(samples, Sample{Scenario: scs[0].Name, Outcome: "(no sample)"})
 	}
@@ -439,6 +476,8 @@ func checkMain(args []string) int {
 		"instrumentation":               instrStats,
 		"workers":                       *workers,
 		"instrumentation_selfcheck":     selfCheck,
+		"real_networks":                 realRes,
+		"environment_conformance":       confRes,
 	}
 	ev := map[string]interface{}{
 		"property_id": *prop,
